@@ -15,12 +15,12 @@ def config(T):
         "C11": dict(pkg="c11", tests=[T("TestPagination", 6000, 240000, sq=4, st=16)]),
         "C12": dict(pkg="c12", tests=[T("TestShardLimit", 2400, 64000, sq=4, st=16)]),
         "C13": dict(pkg="c13", tests=[T("TestCodec", 6000, 300000, sq=4, st=16), T("TestProtoFilter", 3000, 100000, sq=2, st=8)]),
-        "C14": dict(pkg="c14", tests=[T("TestAdvertised", 600, 24000, sq=4, st=16)]),
+        "C14": dict(pkg="c14", tests=[T("TestPinned"), T("TestAdvertised", 600, 24000, sq=4, st=16), T("TestMethodShapes", 3000, 120000, sq=2, st=8)]),
         "C15": dict(pkg="c15", tests=[T("TestPinned"), T("TestDocuments", 12000, 600000, sq=4, st=16), T("TestBombs", 200, 2000, sq=2, st=4),
                                       T("TestEnvelopes", 600, 20000, sq=2, st=8, race=True), T("TestHTTP", 800, 20000, sq=2, st=4),
                                       T("TestPanicContained", 150, 3000, sq=1, st=4, race=True), T("TestCancellation", 200, 4000, sq=1, st=1), T("TestGatewayCancellation", 150, 3000, sq=1, st=1)]),
         "C16": dict(pkg="c16", tests=[T("TestDirect", 4000, 120000, sq=4, st=12), T("TestSocket", 600, 12000, sq=4, st=8, race=True)]),
-        "C17": dict(pkg="c17", tests=[T("TestPinned"), T("TestLifecycle", 640, 24000, sq=8, st=16, race=True)]),
+        "C17": dict(pkg="c17", tests=[T("TestPinned"), T("TestStaleCloser"), T("TestLifecycle", 640, 24000, sq=8, st=16, race=True)]),
         "C18": dict(pkg="c18", tests=[T("TestArgs", 8000, 400000, sq=4, st=16), T("TestArgsNegative", 4000, 100000, sq=2, st=8)]),
         "C19": dict(pkg="c19", tests=[T("TestPinned"), T("TestDirectives", 4000, 160000, sq=4, st=16)]),
         "C20": dict(pkg="c20", tests=[T("TestPinned"), T("TestLimiter", 480, 24000, sq=8, st=16, race=True)]),
